@@ -1,9 +1,12 @@
 mod alloc;
 mod c01;
 mod c04;
+mod c05;
 mod c11;
+mod c17;
 mod c20;
 mod faults;
+mod frontend;
 mod io;
 mod choices;
 mod engine;
@@ -84,6 +87,19 @@ fn main() {
                 .with("events", J::arr(out.lines.iter().map(|s| J::str(s.clone()))))
                 .with("scenario", J::arr(out.scenario.iter().map(|s| J::str(s.clone()))));
             println!("{}", r.to_string());
+        }
+        "tape" => {
+            // sim tape --prop P --seed S --run R [--lift ...]: prints the tape the run consumes
+            let prop = arg_val(&args, "--prop").expect("--prop");
+            let seed = arg_val(&args, "--seed").and_then(|s| s.parse().ok()).unwrap_or(1);
+            let run = arg_val(&args, "--run").and_then(|s| s.parse().ok()).unwrap_or(0);
+            let tier = Tier::parse(&arg_val(&args, "--tier").unwrap_or("quick".into())).expect("tier");
+            let lifted = lifted_of(&args);
+            let mut ch = choices::Choices::from_seed(seed, &prop, run);
+            let mut counters = engine::Counters::default();
+            let o = runner::RunOpts { prop: &prop, tier, record: true, outcomes: false, lifted: &lifted };
+            let out = runner::run_once(&o, &mut ch, &mut counters);
+            println!("{}", J::obj().with("lanes", runner::lanes_json(&out.lanes)).with("events", J::arr(out.lines.iter().map(|s| J::str(s.clone())))).to_string());
         }
         "minimize" => {
             // sim minimize <in> <out>: shrink the tape while the same signature persists
